@@ -138,6 +138,25 @@ def Value.loc : Value → Loc
   | .list _ loc => loc
   | .object _ loc => loc
 
+def Definition.loc : Definition → Loc
+  | .operation d => d.loc
+  | .fragment d => d.loc
+  | .schemaDefinition _ _ loc => loc
+  | .scalarTypeDefinition _ _ _ loc => loc
+  | .objectTypeDefinition _ _ _ _ _ loc => loc
+  | .interfaceTypeDefinition _ _ _ _ loc => loc
+  | .unionTypeDefinition _ _ _ _ loc => loc
+  | .enumTypeDefinition _ _ _ _ loc => loc
+  | .inputObjectTypeDefinition _ _ _ _ loc => loc
+  | .directiveDefinition _ _ _ _ loc => loc
+  | .schemaExtension _ _ loc => loc
+  | .scalarTypeExtension _ _ loc => loc
+  | .objectTypeExtension _ _ _ _ loc => loc
+  | .interfaceTypeExtension _ _ _ loc => loc
+  | .unionTypeExtension _ _ _ loc => loc
+  | .enumTypeExtension _ _ _ loc => loc
+  | .inputObjectTypeExtension _ _ _ loc => loc
+
 /-- the type itself and every type nested in it -/
 def TypeRef.subs : TypeRef → List TypeRef
   | .named t => [.named t]
